@@ -797,6 +797,17 @@ def check_model(case, ctx):
                 if got_ids != want_ids:
                     ctx.fail('C07.model/cti:phase-%s' % field, '%s: file %r model %r' % (ph.name, got, sorted(want_ids)))
                     break
+            # the BEPs its reactions use, by name (from the case, not from the phase's own property)
+            k_ = M['surf_ph'].index(ph)
+            want_b = []
+            for rx_, r_ in zip(M['reactions'], case['rxns']):
+                if r_['surface'] == k_ and r_['ts'] == 'bep' and M['beps'][r_['bep']].name not in want_b:
+                    want_b.append(M['beps'][r_['bep']].name)
+            got_b = k.get('beps')
+            got_b = [] if got_b in (None, '') else (got_b.split() if isinstance(got_b, str) else list(got_b))
+            if sorted(got_b) != sorted(want_b):
+                ctx.fail('C07.model/cti:phase-beps', '%s: file %r, its reactions use %r' % (ph.name, k.get('beps'), want_b))
+                break
     # gas and bulk phases
     cg = by.get('ideal_gas', [])
     gas_ph = [p for p in M['phases'] if type(p).__name__ == 'IdealGas']
